@@ -166,6 +166,16 @@ fn do_op(op: &Value) -> Value {
             json!(["o", null])
         }
         "nop" => json!(["o", null]),
+        // several calls as one scheduling step (session initialisation in the scheduler harness)
+        "seq" => {
+            let mut out = Vec::new();
+            if let Some(a) = op.as_array() {
+                for sub in &a[1..] {
+                    out.push(do_op(sub));
+                }
+            }
+            json!(["o", out])
+        }
         "panic_test" => panic!("panic_test"),
         _ => json!(["e", format!("mc: unknown op {}", name), ""]),
     }
